@@ -1,0 +1,28 @@
+//go:build verif
+
+// Contracts for package coreutil, checked by /verif/govc. Comment-only: no code.
+package coreutil
+
+// `now` is the ghost clock (monotone; time.Now() returns it; a timer set for d fires no earlier than d later).
+
+//@ func (w *Waiter) Wait
+//@ props C04
+//@ requires w.lastNow <= now
+//@ let next = result_of(w.sched.Next, 0)
+//@ ensures [clock-cache-is-past] w.lastNow <= now
+//@ ensures [no-early-shot] imp(ok && !done(ctx), now >= next)
+//@ ensures [lateness-measured-with-a-fresh-clock] imp(ok, w.lastNow >= old(now))
+//@ ensures [late-token-is-judged-late] imp(ok && w.lastNow - next >= 2000000000, w.overdueDuration >= 2000000000)
+//@ ensures [punctual-token-not-judged-late] imp(ok && w.overdueDuration >= 2000000000, w.lastNow - next >= 2000000000)
+//@ ensures [no-token-no-overdue] imp(!ok, w.overdueDuration == 0)
+//@ modifies w.overdueDuration, w.lastNow, w.timer, leftOf[w.sched], timerDeadline
+
+//@ func (w *Waiter) IsSlowDown
+//@ props C04
+//@ ensures [2s-window] imp(ok, w.overdueDuration >= 2000000000)
+//@ ensures imp(!ok && !done(ctx), w.overdueDuration < 2000000000)
+
+//@ func (w *Waiter) IsFinished
+//@ props C04 C03
+//@ ensures imp(!ok, leftOf[w.sched] != 0)
+//@ modifies leftOf[w.sched]
